@@ -16,7 +16,7 @@ PROP["lean_modules"] += _SM["C04"]
 PROP["rule"] += " || v1: " + _SR
 PROP["assumptions"] = list(PROP["assumptions"]) + _SA
 
-PROP["jobs"].append({"harness": "h_srcack", "comp": "srcack", "driver": "srcack", "n_quick": 300, "n_thorough": 12000, "timeout": 2400,
+PROP["jobs"].append({"harness": "h_srcack", "comp": "srcack", "driver": "srcack", "n_quick": 300, "n_thorough": 3000, "timeout": 2400,
                      "fail_tag": "C04",
                      "why": "the acks the real connector.Source delivers to the plugin stream (deferred-ack queue, retries, teardown) are not the "
                             "engine's acks in order without gap or repeat (monitor clause C04:ack-sequence-gap / order), or the trace is not a behaviour of the M3 model"})
